@@ -28,7 +28,7 @@ func init() {
 		},
 		Real:     []string{"mutable.CopyOnWriteMap", "fp.UnsafeGoMap", "fp.Map wrapper"},
 		Stub:     []string{"Go scheduler at hook points (seeded scheduler)", "user callbacks f / pred / remap (may stall)", "client threads"},
-		Quick:    Budget{Runs: 40000, Wall: 40 * time.Second},
+		Quick:    Budget{Runs: 80000, Wall: 45 * time.Second},
 		Thorough: Budget{Runs: 3000000, Wall: 20 * time.Minute},
 		Exec:     execC19,
 	})
